@@ -8,7 +8,7 @@ mkdir -p build/bin evidence replays
 (cd tools && go build -o ../build/bin/go2lean ./go2lean && go build -o ../build/bin/gofacts ./gofacts && go build -o ../build/bin/gostr2lean ./gostr2lean)
 rm -rf lean/GitSizer/Gen && mkdir -p lean/GitSizer/Gen
 build/bin/go2lean /repo lean/GitSizer/Gen || cp lean/gen_baseline/Counts.lean lean/gen_baseline/Sizes.lean lean/GitSizer/Gen/
-build/bin/gofacts /repo lean/GitSizer/Gen || cp lean/gen_baseline/Tables.lean lean/gen_baseline/Cmds.lean lean/GitSizer/Gen/
+build/bin/gofacts /repo lean/GitSizer/Gen || cp lean/gen_baseline/Tables.lean lean/gen_baseline/Cmds.lean lean/gen_baseline/Flows.lean lean/GitSizer/Gen/
 build/bin/gostr2lean /repo lean/GitSizer/Gen strs || cp lean/gen_baseline/Strs.lean lean/GitSizer/Gen/
 build/bin/gostr2lean /repo lean/GitSizer/Gen objs || cp lean/gen_baseline/Objs.lean lean/GitSizer/Gen/
 (cd lean && lake build GitSizer gsmodel) || true
